@@ -70,10 +70,25 @@ def cases(ctx):
         ck = gen.rand_key(rng, m, unique_list=True)
         yield {'k': iface, 'spec': spec, 'route': route, 'rk': rk, 'ck': ck, 'val': rng.choice(VALUES), 'r': rng.randint(0, 10 ** 6)}
     yield from _astype_stream(ctx, rng, 500 if quick else 6000)
+    yield from _assign_frame_stream(ctx, ctx.rng('assign_frame'), 700 if quick else 8000)
     yield from _tbassign_fixed()
     yield from _tbassign_stream(ctx, ctx.rng('tbassign'), 1500 if quick else 12000)
     if not quick:
         yield from _tbassign_exhaustive(ctx)
+
+
+def _assign_frame_stream(ctx, rng, count):
+    """a Frame (or Series / array) value written into SOME rows of several columns that share one 2-D block: the value's
+    columns have their own dtypes, the block mates that are not addressed must keep theirs"""
+    for i in range(count):
+        spec = gen.rand_frame_spec(rng, 5, 6, dtypes=rng.choice([['int64', 'float64'], gen.DTYPES_BASIC, ['int64', 'int8', 'float64', 'float32']]),
+                                   index_kinds=('auto', 'int', 'str'), column_kinds=('auto', 'int', 'str'), min_cols=2, min_rows=2, run_bias=0.85)
+        n, m = spec['rows'], len(spec['cols'])
+        a = rng.randint(0, m - 2)
+        b = rng.randint(a + 2, m)
+        rk = gen.rand_key(rng, n, kinds=('sl', 'list', 'mask', 'sl'), unique_list=True)
+        yield {'k': rng.choice(['assign_frame', 'assign_frame', 'assign_array', 'assign_series']), 'spec': spec,
+               'route': rng.choice(['iloc', 'loc']), 'rk': rk, 'ck': ['sl', a, b, None], 'val': rng.choice(VALUES), 'r': rng.randint(0, 10 ** 6)}
 
 
 def _astype_stream(ctx, rng, count):
